@@ -209,3 +209,12 @@ Example c08_error_is_local_example :
   dead (ms 1%nat) = true /\ dead (ms 2%nat) = false /\ length (out (ms 2%nat)) = 1%nat /\
   ms 0%nat = feed bolt_parse init req /\ dead (ms 0%nat) = false /\ length (out (ms 0%nat)) = 1%nat.
 Proof. vm_compute. repeat split; reflexivity. Qed.
+
+(* width of the "string ends inside the block" test of decodeStr: the code in the tree compares in int (64 bits:
+   index + 4 + int(length) cannot wrap for a 32-bit length), read from the source; c08_total_header_block above therefore holds
+   for EVERY 32-bit value of every key / value length prefix.  The uint32 form of the test lets 2^32-4-index .. 2^32-2 through
+   (the sum wraps) and the slice expression panics: *)
+Theorem c08_header_end_test_is_int : MV.Gen.CodecSrc.hdr_end_u32 = false.
+Proof. exact eq_refl. Qed.
+Theorem c08_header_end_u32_panics : fst (hdr_decode_sw true true [255;255;255;253; 1; 2; 3; 4]) = HPanic.
+Proof. exact hdr_decode_u32_panics. Qed.
